@@ -555,6 +555,34 @@ theorem reconcileOld_facts (s : State) (l : List RS) (nw : RS) (hok : ∀ r ∈ 
             omega
 
 
+/-- when the spec-based availability budget is spent (`allPods − minAvailable − newUnavailable ≤ 0`, the early
+    exit `maxScaledDown <= 0` of `reconcileOldReplicaSets`) the old ReplicaSets are not lowered, whatever their
+    (possibly stale) status says -/
+theorem reconcileOld_spent (s : State) (l : List RS) (nw : RS) (hok : ∀ r ∈ l, rsOk r = true)
+    (hb : sumSpec l + nw.avail - (s.replicas - maxUnavailV s) ≤ 0) :
+    sumSpec l ≤ sumSpec (reconcileOld s l nw).2.1 := by
+  have a1 := sumBy_active_inactive (·.spec) l
+  have i0 := sumSpec_inactive_zero l (fun r hr => ((rsOk_iff r).mp (hok r hr)).1)
+  unfold reconcileOld
+  simp only []
+  split
+  · exact Int.le_refl _
+  · rename_i h
+    have hne : sumSpec (active l) ≠ 0 := by simpa using h
+    split
+    · rename_i hlim
+      have up := scaleUpOld_facts s (active l) (-scaleDownLimitForOld s (active l) nw.spec)
+      have hnil : active l ≠ [] := by
+        intro h0; rw [h0] at hne; simp [sumSpec] at hne
+      simp only [scaleDownLimitForOld, sumSpec, sumAvail, sumPods, sumBy_append, hnil, or_false] at *
+      split at up <;> omega
+    · split
+      · exact Int.le_refl _
+      · rename_i hm
+        exfalso
+        simp only [sumSpec] at *
+        omega
+
 /-! ### the new ReplicaSet -/
 
 /-- size `reconcileNewReplicaSet` gives to a new RS of size `n` when the old RSs total `oldSum` -/
